@@ -10,13 +10,16 @@
 (*        via = "buffer", or "conn/<how the peer ends the stream>/<chunk>" *)
 (*        when the same reads pull from a connection that delivers the     *)
 (*        prefix and then ends (clean close, error, close with last data)  *)
-(*   Lazy len n seqs maxalloc at                                           *)
-(*        second stage: on every object a decode of this encoding or of a  *)
-(*        hostile variant returned, for every public accessor A the call   *)
-(*        sequence A, A, Write, decode(written), A was run on a fresh      *)
-(*        object; seqs = every distinct <<A, r1, r2, w, r3>> observed;     *)
-(*        maxalloc = largest allocation of one whole sequence, accalloc =  *)
-(*        largest allocation of a single accessor call                     *)
+(*   Lazy len n0 n seqs maxalloc at accalloc accat                         *)
+(*        second stage.  On every object a decode of this encoding or of a *)
+(*        hostile variant returned (n0 objects) every public accessor was  *)
+(*        called; for the valid encoding, and for every hostile variant on *)
+(*        whose object an accessor failed that does not fail on the valid  *)
+(*        one, every accessor A got a fresh object for the call sequence   *)
+(*        A, A, Write, decode(written), A (n sequences); seqs = every      *)
+(*        distinct <<A, r1, r2, w, r3>> observed with the first input      *)
+(*        showing it; maxalloc = largest allocation of one whole sequence, *)
+(*        accalloc = largest allocation of a single accessor call          *)
 (*   Tag reg pos w nest acc n okcodes                                      *)
 (*        a position holding a type tag by construction (the object's own  *)
 (*        or a nested object's), overwritten with n codes: okcodes = the   *)
@@ -24,7 +27,8 @@
 (*        a lazily decoded blob) returned normally                         *)
 (*   Hostile len patch n outcomes maxalloc atpos overrun                   *)
 (*        one overwrite pattern tried at n offsets: set of outcomes,       *)
-(*        largest allocation of a single decode, largest overrun           *)
+(*        largest allocation of a single decode (exact when above 256 KiB, *)
+(*        else the runtime's lagging counter), largest overrun             *)
 (*   Died how at   the child decoding this object crashed fatally or hung: *)
 (*        there is NO action for it.                                       *)
 (* The per-decode judgement AdmissibleRun is monotone in alloc and overrun *)
